@@ -843,6 +843,8 @@ def _install_mf_ops():
         return SymBool(uf(f"allclose_rtol{rtol}_atol{atol}", ARR, ARR, z3.BoolSort())(_arr(a), _arr(b)))
 
     FakeTorch.allclose = allclose
+    FakeTorch.count_nonzero = lambda self_, t, dim=None: SymTensor.int_scalar(__import__("vlib.sym", fromlist=["SymInt"]).SymInt(uf("count_nonzero", ARR, z3.IntSort())(_arr(t))))
+    SymTensor.count_nonzero = lambda self, dim=None: SymTensor.int_scalar(__import__("vlib.sym", fromlist=["SymInt"]).SymInt(uf("count_nonzero", ARR, z3.IntSort())(_arr(self))))
     FakeTorch.where = where
     FakeTorch.min = tmin
     FakeTorch.minimum = minimum
